@@ -560,6 +560,37 @@ def unit_subpart_insert(kind, nself, ins, index, meth='insert'):
                 config={'class': kind, 'ndim': nself, 'inserted_ndims': list(ins), 'index': index, 'method': meth})
 
 
+def unit_nodes_on_bdry_normalisation():
+    """odl.util.normalize:normalized_nodes_on_bdry for every documented spelling (one bool; for one axis one pair (left, right); per axis a bool or a pair; mixtures):
+    the result is a list with exactly `length` entries, each a 2-tuple of bools, entry i = (left_i, right_i) as given; sequences of another length are rejected."""
+    def run(ctx):
+        I = ctx.I
+        f = I.get_func('odl.util.normalize:normalized_nodes_on_bdry')
+        cases = [(True, 1, [(True, True)]), (False, 3, [(False, False)] * 3), ((True, False), 1, [(True, False)]), ((False, True), 1, [(False, True)]), ([(True, False)], 1, [(True, False)]),
+                 ([True, False], 2, [(True, True), (False, False)]), ((True, False), 2, [(True, True), (False, False)]), ([(True, False), False, True], 3, [(True, False), (False, False), (True, True)]),
+                 ([(False, True), (True, False)], 2, [(False, True), (True, False)]), ([True], 1, [(True, True)]), ([True, False, True], 2, 'ValueError'), ([(True, False)], 2, 'ValueError')]
+        for inp, length, want in cases:
+            def path(st, inp=inp, length=length):
+                st.object_arrays = True
+                fr = ip.Frame(st)
+                try:
+                    return ('ok', I.call(f, [inp], {'length': length}, fr))
+                except ip.PyRaise as e:
+                    return ('raise', e.exc)
+            info = {'nodes_on_bdry': repr(inp), 'length': length}
+            for st, (status, r) in ctx.explore(path):
+                if want == 'ValueError':
+                    # the library formats its ValueError message with an undefined name, so the call ends in NameError: still a rejection - the error class is not part of the property (observation in DESIGN 5.3)
+                    ctx.prove(st, 'a sequence of the wrong length is rejected (raises)', status == 'raise', dict(info, got=lib.exc_desc(r) if status == 'raise' else repr(r)))
+                    continue
+                if status == 'raise':
+                    ctx.fail(st, 'no_raise', 'raises %s' % lib.exc_desc(r), info)
+                    continue
+                got = [tuple(bool(b) for b in e) if isinstance(e, (tuple, list)) else e for e in list(r)]
+                ctx.prove(st, 'a list of `length` pairs (left, right) as given', got == want, dict(info, got=repr(r), want=repr(want)))
+    return Unit('uniform/nodes_on_bdry-normalisation', run, funcs=['odl.util.normalize:normalized_nodes_on_bdry'], config={})
+
+
 def unit_subpart_native():
     """BOUNDED (never counted as proved): slices, index lists, byaxis and squeeze of the partitions of the native pool - the cells of the
     sub-partition are cells of the parent (boundaries taken from the parent's boundaries), its nodes are the selected nodes, and the tiling
@@ -587,6 +618,7 @@ def units(tier, seed):
         for nself, ins in ((2, (1,)), (1, (2, 1)), (2, (2, 2))):
             us.append(unit_subpart_insert(kind, nself, ins, None, meth='append'))
     us.append(unit_subpart_native())
+    us.append(unit_nodes_on_bdry_normalisation())
     us.append(unit_canary())
     return us
 
